@@ -131,7 +131,7 @@ Definition with_trace v (s : state) := mkState (slots s) (skind s) (sigs s) (imp
 
 Definition emit_ev (e : event) (s : state) : state := with_trace (e :: trace s) s.
 
-Inductive error := ErrUAF | ErrDangling | ErrDoubleErase | ErrFuel | ErrUnsupported.
+Inductive error := ErrUAF | ErrDangling | ErrDoubleErase | ErrLoop | ErrFuel | ErrUnsupported.
 Inductive res (A : Type) := Ok (a : A) | Err (e : error).
 Arguments Ok {A} a.
 Arguments Err {A} e.
@@ -605,7 +605,9 @@ Fixpoint sweep_nodes (i : N) (ids : list nid) (st : state) : res state :=
       match get_sb (LNode i n) st with
       | None => Err ErrDangling
       | Some sb =>
-          if sb_empty sb then st1 <- erase_node i n st ;; sweep_nodes i r st1
+          if sb_empty sb then
+            st0 <- rep_disconnect (LNode i n) st ;;      (* releases the self_and_iter of a never-valid slot *)
+            st1 <- erase_node i n st0 ;; sweep_nodes i r st1
           else sweep_nodes i r st
       end
   end.
@@ -614,6 +616,12 @@ Definition upd_impl (i : N) (f : impl -> impl) (st : state) : res state :=
   match aget i (impls st) with
   | Some im => Ok (set_impl i (f im) st)
   | None => Err ErrUAF
+  end.
+
+Definition upd_impl_opt (i : N) (f : impl -> impl) (st : state) : res state :=
+  match aget i (impls st) with
+  | Some im => Ok (set_impl i (f im) st)
+  | None => Ok st
   end.
 
 (* ~signal_impl: clear() with an expired weak pointer, then the list and the object go *)
@@ -639,15 +647,32 @@ Definition release_check (i : N) (st : state) : res state :=
   | Some im => if N.eqb (refcount i st) 0 && negb (i_dying im) then destroy_impl i st else Ok st
   end.
 
-Definition sweep (i : N) (st : state) : res state :=
+(* one pass of signal_impl::sweep between the holder's constructor and its destructor *)
+Definition sweep_pass (i : N) (st : state) : res state :=
   st1 <- upd_impl i (fun im => with_deferred false (with_exec (i_exec im + 1) (with_holders (i_holders im + 1) im))) st ;;
   match aget i (impls st1) with
   | None => Err ErrUAF
   | Some im =>
       st2 <- sweep_nodes i (map n_id (i_nodes im)) st1 ;;
-      st3 <- upd_impl i (fun im => with_exec (i_exec im - 1) (with_holders (i_holders im - 1) im)) st2 ;;
-      release_check i st3
+      upd_impl i (fun im => with_exec (i_exec im - 1) im) st2
   end.
+
+(* sweep(): the holder's destructor runs unreference_exec, which sweeps once more when the pass
+   itself set deferred_ (it does when it had to disconnect a never-valid slot); the second pass
+   finds nothing attached, so the recursion stops there. *)
+Definition sweep (i : N) (st : state) : res state :=
+  st1 <- sweep_pass i st ;;
+  st2 <- match aget i (impls st1) with
+         | None => Err ErrUAF
+         | Some im =>
+             if N.eqb (i_exec im) 0 && i_deferred im then
+               st2 <- sweep_pass i st1 ;;
+               st3 <- upd_impl i (fun im => with_holders (i_holders im - 1) im) st2 ;;
+               release_check i st3
+             else Ok st1
+         end ;;
+  st3 <- upd_impl_opt i (fun im => with_holders (i_holders im - 1) im) st2 ;;
+  release_check i st3.
 
 (* signal_impl::unreference_exec *)
 Definition unreference_exec (i : N) (st : state) : res state :=
@@ -876,7 +901,7 @@ Section Interp.
   Fixpoint emit_loop (fuel : nat) (i : N) (cur ph : nid) (arg : N) (last : N) (st : state) : outcome N :=
     if nid_eqb cur ph then Done st last else
     match fuel with
-    | O => Fail ErrFuel
+    | O => Fail ErrLoop
     | S fuel' =>
         match get_sb (LNode i cur) st with
         | None => Fail ErrDangling
@@ -957,7 +982,7 @@ Section Interp.
     : outcome (cursor * N) :=
     if nid_eqb (c_pos c) lastpos then Done st (c, a) else
     match fuel with
-    | O => Fail ErrFuel
+    | O => Fail ErrLoop
     | S fuel' =>
         match cur_deref i arg c st with
         | Done st1 c1 =>
@@ -979,7 +1004,7 @@ Section Interp.
     : outcome (cursor * N) :=
     if nid_eqb (c_pos c) firstpos then Done st (c, a) else
     match fuel with
-    | O => Fail ErrFuel
+    | O => Fail ErrLoop
     | S fuel' =>
         match cur_dec i c st with
         | Err e => Fail e
@@ -1301,7 +1326,8 @@ Section Interp.
     | OGMove gn go =>
         match live_sig go st with
         | Some src =>
-            if fresh_sig gn st then
+            (* signal<>::accumulated declares no move constructor: not part of the modelled API *)
+            if fresh_sig gn st && match gk_acc (g_kind src) with None => true | Some _ => false end then
               let st1 := with_sigs (aset gn (Some (mkSig (g_kind src) (g_impl src)))
                                      (aset go (Some (mkSig (g_kind src) None)) (sigs st))) st in
               if gk_track (g_kind src) then
@@ -1316,11 +1342,10 @@ Section Interp.
         | Some dst, Some src =>
             if same_gkind (g_kind dst) (g_kind src) then
               if match g_impl dst, g_impl src with
-                 | None, None => true
                  | Some a, Some b => N.eqb a b
                  | _, _ => false
                  end
-              then Done st tt                                         (* src.impl_ == impl_ *)
+              then Done st tt                                         (* impl_ && src.impl_ == impl_ *)
               else
                 let '(i, st1) := ensure_impl gs src st in
                 let st2 := with_sigs (aset gd (Some (mkSig (g_kind dst) (Some i))) (sigs st1)) st1 in
@@ -1334,7 +1359,7 @@ Section Interp.
     | OGMoveAssign gd gs =>
         match live_sig gd st, live_sig gs st with
         | Some dst, Some src =>
-            if same_gkind (g_kind dst) (g_kind src) then
+            if same_gkind (g_kind dst) (g_kind src) && match gk_acc (g_kind src) with None => true | Some _ => false end then
               if match g_impl dst, g_impl src with
                  | None, None => true
                  | Some a, Some b => N.eqb a b
@@ -1488,11 +1513,14 @@ Section Interp.
         if fresh_sconn k st then Done (set_connptr (WK k) None st) tt else skip st
     | OKAssign k c =>
         match get_connptr (WK k) st, get_connptr (WC c) st with
-        | Some old, Some p => liftu (st1 <- conn_disconnect old st ;;
-                                     match get_connptr (WK k) st1 with
-                                     | Some _ => conn_set (WK k) p st1
-                                     | None => Err ErrUnsupported
-                                     end)
+        | Some old, Some _ =>
+            (* operator=(connection c): c is a registered copy, so it is nulled like every other
+               watcher if conn_.disconnect() erases the slot it refers to: read it afterwards *)
+            liftu (st1 <- conn_disconnect old st ;;
+                   match get_connptr (WK k) st1, get_connptr (WC c) st1 with
+                   | Some _, Some p => conn_set (WK k) p st1
+                   | _, _ => Err ErrUnsupported
+                   end)
         | _, _ => skip st
         end
     | OKMove kn ko =>
